@@ -212,7 +212,7 @@ pub fn decode(target: &str, data: &[u8]) -> Vec<(&'static str, Value)> {
                     let ids: Vec<u32> = facts.terms.iter().map(|t| t.id).collect();
                     let n = r.below(40);
                     let members = (0..n).map(|_| ids[r.below(ids.len())]).collect();
-                    vec![("C13", serde_json::to_value(c13::Case { facts, members, path: PathSel::Bin(3), ops: (0..r.below(7)).map(|_| (r.u8(), r.u16())).collect() }).unwrap())]
+                    vec![("C13", serde_json::to_value(c13::Case { facts, members, path: PathSel::Bin(3), ops: (0..r.below(7)).map(|_| (r.u8(), r.u16())).collect(), custom_modifier: if r.u8() % 5 == 0 { vec![r.u16(), r.u16()] } else { vec![] }, custom_categories: if r.u8() % 5 == 0 { vec![r.u16()] } else { vec![] } }).unwrap())]
                 }
                 2 => {
                     let cfg = std_cfg(NameMode::Capped, true);
